@@ -343,6 +343,13 @@ def _ugla(chk, repo, ci, fn):
     # R2: rhs blocks and recomputation
     problems = []
     outer = {}
+    # procedures (private methods, nested defs without a result) that group the update statements are inlined at their call sites; the closures that
+    # compute a value (the Laplace factor, the operator M) are the rule's subject and stay calls
+    from .common import canon_keep
+    fn_src = fn
+    valued = {d.name for d in ast.walk(fn_src) if isinstance(d, ast.FunctionDef) and d is not fn_src
+              and any(isinstance(r, ast.Return) and r.value is not None for r in ast.walk(d))}
+    fn = canon_keep(repo, ci, fn_src, keep=valued)
     for s in ast.walk(fn):
         if isinstance(s, ast.Assign) and path_of(s.targets[0]) in ("self._L2mu", "self._b_tild", "self._L1"):
             outer.setdefault(path_of(s.targets[0]), []).append(s)
@@ -364,7 +371,7 @@ def _ugla(chk, repo, ci, fn):
     if len(l1) != 1 or not _norm(l1[0].value).endswith("likelihood.distribution.sqrtprec"):
         problems.append("self._L1 is not the likelihood's sqrtprec")
     # recomputation each step: everything derived from _L2 is rebuilt after _L2 and before the solve
-    step = repo.method(ci, "step")[1] if "step" in ci.methods else fn
+    step = canon_keep(repo, ci, repo.method(ci, "step")[1], keep=valued | {"Lk_fun", "_Lk_fun"}) if "step" in ci.methods else fn
     region = step.body
     if step is fn:
         loops = [s for s in fn.body if isinstance(s, ast.For)]
@@ -440,21 +447,27 @@ def _r3(chk, repo):
 
 
 def _r4(chk, repo):
-    g = repo.cls("cuqi/distribution/_gaussian.py:Gaussian").lookup_prop("sqrtprecTimesMean")
-    t = [_norm(s) for s in g.getter.body if not (isinstance(s, ast.Expr) and isinstance(s.value, ast.Constant))]
-    ok = t == ["mean=np.repeat(self.mean,self.dim)iflen(self.mean)==1elseself.mean", "return(self.sqrtprec@mean).flatten()"]
+    from .common import expected_text as expected_text_
+    from .common import closed_is
+    ga = repo.cls("cuqi/distribution/_gaussian.py:Gaussian")
+    g = ga.lookup_prop("sqrtprecTimesMean")
+    ok, outs = closed_is(repo, ga, g.getter, "(self.sqrtprec@(np.repeat(self.mean,self.dim) if len(self.mean)==1 else self.mean)).flatten()")
+    if not ok:
+        # the broadcast written as a statement-level branch: both paths are the product with the (broadcast) mean
+        ok = {o for o in outs} == {("return", _e) for _e in (expected_text_("(self.sqrtprec@np.repeat(self.mean,self.dim)).flatten()"), expected_text_("(self.sqrtprec@self.mean).flatten()"))}
     chk.add("C06-R4", "cuqi/distribution/_gaussian.py:Gaussian.@sqrtprecTimesMean", ok, site(repo, g.getter), "sqrtprec @ mean (scalar mean broadcast first)",
-            f"Gaussian.sqrtprecTimesMean is {t}", g.getter)
-    g = repo.cls("cuqi/distribution/_gmrf.py:GMRF").lookup_prop("sqrtprecTimesMean")
-    t = [_norm(s) for s in g.getter.body]
-    chk.add("C06-R4", "cuqi/distribution/_gmrf.py:GMRF.@sqrtprecTimesMean", t == ["returnself.sqrtprec@self.mean"], site(repo, g.getter), "sqrtprec @ mean",
-            f"GMRF.sqrtprecTimesMean is {t}", g.getter)
-    g = repo.cls("cuqi/distribution/_gaussian.py:JointGaussianSqrtPrec").lookup_prop("sqrtprecTimesMean")
-    t = _norm(g.getter)
-    ok = "result.append((self._sqrtprecs[i]@self._means[i]).flatten())" in t and "returnnp.hstack(result)" in t and "foriinrange(len(self._means))" in t
+            f"Gaussian.sqrtprecTimesMean is {outs}", g.getter)
+    gmc = repo.cls("cuqi/distribution/_gmrf.py:GMRF")
+    g = gmc.lookup_prop("sqrtprecTimesMean")
+    ok, outs = closed_is(repo, gmc, g.getter, "self.sqrtprec@self.mean")
+    chk.add("C06-R4", "cuqi/distribution/_gmrf.py:GMRF.@sqrtprecTimesMean", ok, site(repo, g.getter), "sqrtprec @ mean",
+            f"GMRF.sqrtprecTimesMean is {outs}", g.getter)
+    jg = repo.cls("cuqi/distribution/_gaussian.py:JointGaussianSqrtPrec")
+    g = jg.lookup_prop("sqrtprecTimesMean")
+    ok, outs = closed_is(repo, jg, g.getter, "np.hstack([(self._sqrtprecs[_k0]@self._means[_k0]).flatten() for _k0 in range(len(self._means))])",
+                         "np.hstack([(_k0@_k1).flatten() for _k0,_k1 in zip(self._sqrtprecs,self._means)])", level=4)
     chk.add("C06-R4", "cuqi/distribution/_gaussian.py:JointGaussianSqrtPrec.@sqrtprecTimesMean", ok, site(repo, g.getter), "stack of sqrtprec_i @ mean_i",
-            "JointGaussianSqrtPrec.sqrtprecTimesMean is not the stack of sqrtprec_i @ mean_i", g.getter)
-    sp = repo.cls("cuqi/distribution/_gmrf.py:GMRF").lookup_prop("sqrtprec")
-    t = [_norm(s) for s in sp.getter.body]
-    chk.add("C06-R4", "cuqi/distribution/_gmrf.py:GMRF.@sqrtprec", t == ["returnnp.sqrt(self.prec)*self._chol.T"], site(repo, sp.getter), "sqrt(prec) * chol.T",
-            f"GMRF.sqrtprec is {t}", sp.getter)
+            f"JointGaussianSqrtPrec.sqrtprecTimesMean is not the stack of sqrtprec_i @ mean_i: {outs}", g.getter)
+    sp = gmc.lookup_prop("sqrtprec")
+    ok, outs = closed_is(repo, gmc, sp.getter, "np.sqrt(self.prec)*self._chol.T", "self._chol.T*np.sqrt(self.prec)")
+    chk.add("C06-R4", "cuqi/distribution/_gmrf.py:GMRF.@sqrtprec", ok, site(repo, sp.getter), "sqrt(prec) * chol.T", f"GMRF.sqrtprec is {outs}", sp.getter)
